@@ -460,5 +460,15 @@ class TRec(T):
 TSolverT = TSolver()
 
 
+class TCallable(T):
+    """a class / function object passed as a value (e.g. `cls` of a classmethod)"""
+
+    def __init__(self, qual):
+        self.qual = qual
+
+    def fresh(self, name, st):
+        return VCallable(self.qual)
+
+
 def same_type_fresh(v: V, name, st):
     return v.ty.fresh(name, st)
